@@ -506,6 +506,11 @@ func (l *c19Len) callFact(call *ssa.Call, idx int, at ssa.Instruction, depth int
 	if idx >= f.Signature.Results().Len() || !c19IsByteSlice(f.Signature.Results().At(idx).Type()) {
 		return c19LenFact{}
 	}
+	// the nil returns of the callee come with an error: the fact of its other returns holds at
+	// the call site only where that error has been tested nil
+	if errResultIndex(f.Signature) >= 0 && !c19AcceptDominates(errVerdict(call), c19AtInstr(at)) {
+		return c19LenFact{}
+	}
 	if l.busy[f] {
 		return c19LenFact{}
 	}
